@@ -26,7 +26,9 @@ type recurTmpl struct {
 	// nested call made by the VM (input class of finding
 	// C04-message-handler-reentry)
 	handlerReentry bool
-	src            string
+	// finding: id of another open finding whose input class contains the template
+	finding string
+	src     string
 }
 
 // metaRec builds "metamethod mm whose handler performs the same operation on
@@ -120,6 +122,16 @@ end
 mk()
 collectgarbage() collectgarbage()
 return n > 0`},
+	{name: "gc-across-contexts", finding: kfGCContexts, src: `
+local t = setmetatable({}, {__gc = function() end})
+return runtime.callcontext({kill = {cpu = 100000}}, function()
+  setmetatable(t, {__gc = function() end})
+  return 1
+end)`},
+	{name: "gmatch-init-beyond-end", finding: kfMatchInit, src: `
+local n = 0
+for w in string.gmatch("abc", "^", 10) do n = n + 1 end
+return n, pcall(string.match, "", "^", 2)`},
 	{name: "gc-error", src: `
 for i = 1, 1000 do setmetatable({}, {__gc = function() error("in gc " .. i) end}) end
 collectgarbage()
@@ -290,7 +302,7 @@ func findRecurTmpl(name string) *recurTmpl {
 const (
 	recurCPU      = 1_000_000_000
 	recurCPUQuick = 20_000_000
-	recurMem      = 1_000_000_000
+	recurMem      = 256_000_000
 	recurMemQuick = 128_000_000
 )
 
